@@ -79,6 +79,16 @@ func avcParse(sps []byte) (ok bool, w, h, p, c, l uint64) {
 	return true, uint64(s.Width), uint64(s.Height), uint64(byte(s.Profile)), uint64(byte(s.ProfileCompatibility)), uint64(byte(s.Level))
 }
 
+// avcParseCfg: the chroma format and bit depths (minus 8) avc.ParseSPSNALUnit reports (second part of the model's avc_parse answer).
+func avcParseCfg(sps []byte) (cf, bl, bc uint64) {
+	defer func() { _ = recover() }()
+	s, err := avc.ParseSPSNALUnit(sps, false)
+	if err != nil {
+		return 0, 0, 0
+	}
+	return uint64(s.ChromaFormatIDC), uint64(s.BitDepthLumaMinus8), uint64(s.BitDepthChromaMinus8)
+}
+
 func hevcParse(sps []byte) (ok bool, w, h uint64, cfg []uint64) {
 	defer func() {
 		if r := recover(); r != nil {
@@ -109,7 +119,8 @@ func (o *op) String() string {
 		pr := "N"
 		if len(o.sps) > 0 {
 			if ok, w, h, p, c, l := avcParse(o.sps[0]); ok {
-				pr = fmt.Sprintf("%d.%d.%d.%d.%d", w, h, p, c, l)
+				cf, bl, bc := avcParseCfg(o.sps[0])
+				pr = fmt.Sprintf("%d.%d.%d.%d.%d.%d.%d.%d", w, h, p, c, l, cf, bl, bc)
 			}
 		}
 		return fmt.Sprintf("V:%d:%s:%s:%s:%s:%s", o.k, hs(o.name), nalus(o.sps), nalus(o.pps), b01(o.incl), pr)
@@ -197,11 +208,20 @@ func runOps(ops []*op) (*mp4.InitSegment, string) {
 	return init, string(ocs)
 }
 
+// canonAvcC: render the avcC fields that are not part of the record's syntax for profiles 66/77/88
+// (chroma format, bit depths, NumSPSExt, NoTrailingInfo) as zero: used when a built record is compared
+// with its decoded form (the decoder cannot know them).
+var canonAvcC = false
+
 func cfgString(b mp4.Box) string {
 	switch c := b.(type) {
 	case *mp4.AvcCBox:
 		d := c.DecConfRec
-		return fmt.Sprintf("a.%d.%d.%d.%s/%s", d.AVCProfileIndication, d.ProfileCompatibility, d.AVCLevelIndication, nalus(d.SPSnalus), nalus(d.PPSnalus))
+		if p := d.AVCProfileIndication; canonAvcC && (p == 66 || p == 77 || p == 88) {
+			d.ChromaFormat, d.BitDepthLumaMinus1, d.BitDepthChromaMinus1, d.NumSPSExt, d.NoTrailingInfo = 0, 0, 0, 0, false
+		}
+		return fmt.Sprintf("a.%d.%d.%d.%s/%s/%d.%d.%d.%d.%s", d.AVCProfileIndication, d.ProfileCompatibility, d.AVCLevelIndication, nalus(d.SPSnalus), nalus(d.PPSnalus),
+			d.ChromaFormat, d.BitDepthLumaMinus1, d.BitDepthChromaMinus1, d.NumSPSExt, b01(d.NoTrailingInfo))
 	case *mp4.HvcCBox:
 		d := c.DecConfRec
 		tier := 0
